@@ -35,6 +35,15 @@ INVARIANTS EmitCase
 CHECK_DEADLOCK FALSE
 """
 
+# hand-written seeds: valid documents using syntax the fixtures and the StrictSchema vocabulary do not reach
+SEED_DOCS = [
+    ("seed:utf8-quoted-label-regexp", 'groups:\n- name: g\n  rules:\n  - record: foo\n    expr: sum(up{"foo(bar"=~"a"})\n'),
+    ("seed:utf8-quoted-names", 'groups:\n- name: g\n  rules:\n  - alert: "my alert"\n    expr: \'{"my.metric", "a b"="c"} > 0\'\n    labels:\n      "a.b": c\n'),
+    ("seed:anchors", 'groups:\n- name: g\n  rules:\n  - &r\n    alert: A\n    expr: up == 0\n    labels: &l\n      team: a\n  - <<: *r\n    alert: B\n    annotations: *l\n'),
+    ("seed:group-labels-only", 'groups:\n- name: g\n  labels:\n    team: a\n  rules:\n  - record: foo\n    expr: up\n  - alert: A\n    expr: up == 0\n'),
+    ("seed:block-scalars", 'groups:\n- name: g\n  rules:\n  - alert: A\n    expr: |\n      up\n        == 0\n    annotations:\n      summary: >-\n        {{ $labels.job }}\n        is down\n'),
+]
+
 JUDGE_CHUNK = 60000
 NVAR = 4          # variants per input (harness: c02Variants)
 
@@ -124,7 +133,9 @@ def run(ctx, replay_case=None):
         fixtures = schema_corpus.collect(ctx.repo)
         for name, b in fixtures:
             bases.append({"name": name, "yaml_b64": base64.b64encode(b).decode()})
-        ninputs = len(bases) + (250000 if thorough else 9000)
+        for name, text in SEED_DOCS:
+            bases.append({"name": name, "yaml_b64": base64.b64encode(text.encode()).decode()})
+        ninputs = len(bases) + (200000 if thorough else 5000)
         nbin = 5000 if thorough else 400
     bpath = write_ndjson(ctx.path("c02_bases.ndjson"), bases)
     # ---- EXEC in-process
